@@ -48,7 +48,7 @@ def union_case(draw):
     data = draw(st.binary(min_size=size, max_size=size))
     ops = []
     for _ in range(draw(st.integers(2, 10))):
-        k = draw(st.sampled_from(["member", "member", "nested", "nested", "nested", "reparse", "kw"]))
+        k = draw(st.sampled_from(["member", "member", "nested", "nested", "nested", "reparse", "kw", "default"]))
         ops.append([k, draw(st.integers(0, 1000)), draw(st.binary(min_size=40, max_size=40)).hex()])
     return {"defs": defs, "root": "Root", "cfg": cfg, "data": data.hex(), "wrapped": wrapped, "ops": ops}
 
@@ -153,6 +153,9 @@ def _run_model(case, m, mode, ctx=None):
             want = _decode_members(sem, u, buf)
         except refsem.NonCanonical:
             return False
+        if refsem.has_nan(want):
+            # some member views these bytes as a NaN: Python floats do not carry the payload back (as for C01: not canonical)
+            return False
         for i, f in enumerate(u["fields"]):
             key = fkey(f, i)
             lf = UT.__fields__[i]
@@ -205,6 +208,16 @@ def _run_model(case, m, mode, ctx=None):
             lu = obj.u if case["wrapped"] else obj
             data = bytes(whole)
             trace.append(["reparse"])
+        elif k == "default":
+            # a fresh default-constructed instance: all members are views of zero bytes, whatever happened to earlier ones
+            newo = lib(cs.Root)
+            if isinstance(newo, Err):
+                raise Violation("operation-raised", f"step {step} Root(): {newo}: {desc()}", newo.where)
+            obj = newo
+            lu = obj.u if case["wrapped"] else obj
+            data = bytes(total)
+            buf = bytearray(usize)
+            trace.append(["default"])
         elif k == "kw" and not case["wrapped"]:
             i = sel % len(u["fields"])
             f = u["fields"][i]
